@@ -47,14 +47,14 @@ def _tuples(l):
   return [tuple(x) for x in (l or [])]
 
 
-def strict_report(cfg, w_in, w_out):
+def strict_report(cfg, w_in, w_out, floor=1.0):
   """Judges one constraint output.  Returns list of failures
   [(kind, key, maxviol, tol, info)], and bookkeeping."""
   sizes, units = list(cfg["sizes"]), int(w_out.shape[1])
   mono, ew, tz = cfg["mono"], _tuples(cfg.get("ew")), _tuples(cfg.get("tz"))
   # intermediate values of the bound squashing live at the magnitude of the
   # bounds themselves (w - output_min), so they belong to the rounding scale
-  scale = core.scale_of(w_in, w_out, [b for b in (cfg.get('omin'), cfg.get('omax')) if b is not None])
+  scale = core.scale_of(w_in, w_out, [b for b in (cfg.get('omin'), cfg.get('omax')) if b is not None], floor=floor)
   tol = core.REL_TOL * scale
   W = np.asarray(w_out, dtype=np.float64).reshape(sizes + [units])
   failures, ratios = [], []
@@ -100,9 +100,9 @@ def bounds_report(cfg, w_out, tol=0.0):
   return fails
 
 
-def judge(ctx, site, cfg, w_in, w_out, check_bounds):
+def judge(ctx, site, cfg, w_in, w_out, check_bounds, floor=1.0):
   """Post-condition shared by generated workloads and the repo-tests plugin."""
-  failures, ratios = strict_report(cfg, w_in, w_out)
+  failures, ratios = strict_report(cfg, w_in, w_out, floor)
   has_strict = any(cfg["mono"]) or cfg.get("ew") or cfg.get("tz")
   if has_strict:
     bad = [f for f in failures if f[0] != "documented-exception"]
@@ -168,12 +168,20 @@ def gen_cases(ctx):
       if mode == "feasible_lp" and n > 150:
         mode = "feasible_struct"
       kclass = None
+      kscale = None
       if mode in ("random",):
         kclass, w = gen.kernel(rng, n, cfg["units"])
+        if rng.rand() < .12 and float(np.abs(w).max()) > 0:
+          # micro kernels: the projections are scale-equivariant (sums, averages, max/min - no absolute constants), so
+          # without bounds a kernel of magnitude 1e-8 must come out as feasible *relative to its own scale*
+          kscale = float(rng.choice([1e-8, 1e-12, 1e-20]))
+          cfg = dict(cfg, omin=None, omax=None)
+          w = (w.astype(np.float64) * kscale).astype(np.float32)
+          kclass = "micro/" + kclass
         w = w.tolist()
       else:
         w = None  # built in run_case from the seed below (keeps replay exact: stored after build)
-      yield {"kind": entry, "cfg": cfg, "mode": mode, "kclass": kclass, "w": w,
+      yield {"kind": entry, "cfg": cfg, "mode": mode, "kclass": kclass, "w": w, "kscale": kscale,
              "kseed": int(rng.randint(2**31 - 1)), "labels": labels,
              "exec": modes.pick(rng, (0.7, 0.3, 0.0), allow=("eager", "graph"))}
       i += 1
@@ -207,8 +215,12 @@ def run_case(ctx, case):
   ctx.cls("entry:" + kind, "mode:" + case["mode"], "kernel:" + str(case.get("kclass") or case["mode"]))
   ex = case.get("exec", "eager")
   ctx.cls("exec:" + ex)
+  floor = 1.0
+  if case.get("kscale"):
+    floor = 0.0
+    ctx.cls("micro-kernel")
   strict_in, every_in = input_violation(cfg, w)
-  scale_in = core.scale_of(w)
+  scale_in = core.scale_of(w, floor=floor)
   feasible_in = every_in <= 1e-6 * scale_in
   has_strict = bool(any(cfg["mono"]) or cfg.get("ew") or cfg.get("tz"))
   has_bounds = cfg.get("omin") is not None or cfg.get("omax") is not None
@@ -217,13 +229,13 @@ def run_case(ctx, case):
     c = ll.LatticeConstraints(num_projection_iterations=cfg["iters"], **kw)
     out = modes.call(tf, ex, c, tf.constant(w)).numpy()
     site = "LatticeConstraints.__call__"
-    judge(ctx, site, cfg, w, out, check_bounds="exact")
+    judge(ctx, site, cfg, w, out, check_bounds="exact", floor=floor)
     # idempotence on outputs the oracle judges feasible for every family
     s2, e2 = input_violation(cfg, out)
-    if e2 <= 1e-6 * core.scale_of(out):
+    if e2 <= 1e-6 * core.scale_of(out, floor=floor):
       out2 = modes.call(tf, ex, c, tf.constant(out)).numpy()
       d = float(np.max(np.abs(out2.astype(np.float64) - out)))
-      t = 1e-4 * core.scale_of(out)
+      t = 1e-4 * core.scale_of(out, floor=floor)
       ctx.check("feasible-unchanged", d <= t,
                 "constraint moved its own feasible output by %.3g (tol %.3g)" % (d, t),
                 info={"entry": site, "moved": d}, ratio=d / t)
@@ -233,7 +245,7 @@ def run_case(ctx, case):
         edgeworth_trusts=kw["edgeworth_trusts"], trapezoid_trusts=kw["trapezoid_trusts"],
         output_min=kw["output_min"], output_max=kw["output_max"]), tf.constant(w)).numpy()
     site = "lattice_lib.finalize_constraints"
-    judge(ctx, site, cfg, w, out, check_bounds=None)
+    judge(ctx, site, cfg, w, out, check_bounds=None, floor=floor)
   else:
     mstep = bool(case["kseed"] % 2)
     layer = ll.Lattice(units=cfg["units"], monotonic_at_every_step=mstep,
@@ -245,11 +257,11 @@ def run_case(ctx, case):
     out = layer.kernel.numpy()
     site = "Lattice.finalize_constraints"
     ctx.cls("monotonic_at_every_step:%s" % mstep)
-    judge(ctx, site, cfg, w, out, check_bounds="tol")
+    judge(ctx, site, cfg, w, out, check_bounds="tol", floor=floor)
 
   if feasible_in:
     d = float(np.max(np.abs(out.astype(np.float64) - w.astype(np.float64))))
-    t = 1e-4 * core.scale_of(w, out)
+    t = 1e-4 * core.scale_of(w, out, floor=floor)
     ctx.check("feasible-unchanged", d <= t,
               "%s moved a feasible kernel by %.3g (tol %.3g; input violation %.3g)" % (site, d, t, every_in),
               info={"entry": site, "moved": d, "input_violation": every_in}, ratio=d / t)
